@@ -12,6 +12,7 @@ package main
 import (
 	"fmt"
 	"go/token"
+	"go/types"
 	"sort"
 
 	"golang.org/x/tools/go/ssa"
@@ -51,6 +52,7 @@ type PathCtx struct {
 	depth int
 	stack []*ssa.Function
 	memo  map[memoKey][]uint64
+	alt   int // which alternative of the current edge's facts is being explored (predicate helpers)
 }
 
 type memoKey struct {
@@ -221,22 +223,32 @@ func (c *Ctx) runPaths(fn *ssa.Function, init uint64, rule *PathRule, depth int,
 			continue
 		}
 		for si, succ := range n.b.Succs {
-			for _, r := range runs {
-				s := r.s
-				if rule.Edge != nil {
-					var ok bool
-					s, ok = rule.Edge(pc, s, n.b, si)
-					if !ok {
-						continue
-					}
-				}
-				m := pnode{succ, s, r.defers}
-				if !seen[m] {
-					seen[m] = true
-					pc.par[m] = n
-					work = append(work, m)
+			nAlt := 1
+			if rule.Edge != nil {
+				if a := pc.edgeFactAlts(n.b, si); len(a) > 1 {
+					nAlt = len(a)
 				}
 			}
+			for _, r := range runs {
+				for k := 0; k < nAlt; k++ {
+					s := r.s
+					pc.alt = k
+					if rule.Edge != nil {
+						var ok bool
+						s, ok = rule.Edge(pc, s, n.b, si)
+						if !ok {
+							continue
+						}
+					}
+					m := pnode{succ, s, r.defers}
+					if !seen[m] {
+						seen[m] = true
+						pc.par[m] = n
+						work = append(work, m)
+					}
+				}
+			}
+			pc.alt = 0
 		}
 	}
 	var out []uint64
@@ -290,6 +302,21 @@ func (pc *PathCtx) stepAfterInline(s uint64, ins ssa.Instruction) uint64 { retur
 // that are boolean phis of the same block (value form of `a || b`, `a && b`) are resolved to the value
 // that flowed in from the block the current path came from.
 func (pc *PathCtx) edgeFacts(from *ssa.BasicBlock, si int) []Fact {
+	alts := pc.edgeFactAlts(from, si)
+	if len(alts) == 0 {
+		return nil
+	}
+	if pc.alt < len(alts) {
+		return alts[pc.alt]
+	}
+	return alts[0]
+}
+
+// edgeFactAlts: the alternatives of facts for an edge. One alternative in general; when the condition is a
+// call of a side-effect-free boolean helper of the repository (`if !isReadMethod(r.Method)`), one
+// alternative per path of the helper that returns the value the edge stands for, with the helper's
+// parameters replaced by the call's arguments.
+func (pc *PathCtx) edgeFactAlts(from *ssa.BasicBlock, si int) [][]Fact {
 	if len(from.Instrs) == 0 {
 		return nil
 	}
@@ -329,5 +356,164 @@ func (pc *PathCtx) edgeFacts(from *ssa.BasicBlock, si int) []Fact {
 		_ = b
 		return nil
 	}
-	return condFacts(cond, holds)
+	if call, ok := cond.(*ssa.Call); ok {
+		if alts := predicateAlternatives(call, holds, 0); alts != nil {
+			// the fact about the call itself stays available in every alternative
+			self := condFacts(cond, holds)
+			for i := range alts {
+				alts[i] = append(append([]Fact(nil), self...), alts[i]...)
+			}
+			return alts
+		}
+	}
+	return [][]Fact{condFacts(cond, holds)}
+}
+
+var predicateMemo = map[*ssa.Function]map[bool][][]Fact{}
+
+// predicateAlternatives summarises a boolean helper: for the outcome `want`, the fact lists of its paths,
+// expressed over the caller's argument values. nil when the callee is not a summarisable predicate.
+func predicateAlternatives(call *ssa.Call, want bool, depth int) [][]Fact {
+	callee := call.Call.StaticCallee()
+	if callee == nil || len(callee.Blocks) == 0 || depth > 2 || callee.Pkg == nil || !inRepo(callee.Pkg.Pkg.Path()) {
+		return nil
+	}
+	res := callee.Signature.Results()
+	if res.Len() != 1 {
+		return nil
+	}
+	if b, ok := res.At(0).Type().Underlying().(*types.Basic); !ok || b.Kind() != types.Bool {
+		return nil
+	}
+	sum, ok := predicateMemo[callee]
+	if !ok {
+		sum = summarisePredicate(callee, depth)
+		predicateMemo[callee] = sum
+	}
+	if sum == nil {
+		return nil
+	}
+	// substitute parameters
+	args := call.Call.Args
+	subst := func(v ssa.Value) (ssa.Value, bool) {
+		switch x := v.(type) {
+		case *ssa.Parameter:
+			for i, p := range callee.Params {
+				if p == x && i < len(args) {
+					return args[i], true
+				}
+			}
+			return nil, false
+		case *ssa.Const, *ssa.Global:
+			return v, true
+		}
+		return nil, false
+	}
+	var out [][]Fact
+	for _, fs := range sum[want] {
+		var alt []Fact
+		for _, f := range fs {
+			x, okx := subst(f.X)
+			y, oky := subst(f.Y)
+			if okx && oky {
+				alt = append(alt, Fact{x, y, f.Eq})
+			}
+		}
+		out = append(out, alt)
+	}
+	if len(out) == 0 {
+		// the outcome is impossible or unknown: no knowledge
+		return [][]Fact{nil}
+	}
+	return out
+}
+
+// summarisePredicate enumerates the acyclic paths of a side-effect-free function returning bool.
+func summarisePredicate(fn *ssa.Function, depth int) map[bool][][]Fact {
+	for _, b := range fn.Blocks {
+		for _, ins := range b.Instrs {
+			switch x := ins.(type) {
+			case *ssa.Store, *ssa.MapUpdate, *ssa.Send, *ssa.Go, *ssa.Defer, *ssa.Panic:
+				return nil
+			case *ssa.Call:
+				if _, isBuiltin := x.Call.Value.(*ssa.Builtin); isBuiltin {
+					continue
+				}
+				// calls of other pure helpers / standard-library predicates are tolerated: their result is opaque
+				if c := x.Call.StaticCallee(); c == nil {
+					return nil
+				}
+			}
+		}
+	}
+	out := map[bool][][]Fact{}
+	n := 0
+	var walk func(b *ssa.BasicBlock, facts []Fact, seen map[*ssa.BasicBlock]bool) bool
+	walk = func(b *ssa.BasicBlock, facts []Fact, seen map[*ssa.BasicBlock]bool) bool {
+		if seen[b] {
+			return false // loops are not summarised
+		}
+		seen[b] = true
+		defer delete(seen, b)
+		last := b.Instrs[len(b.Instrs)-1]
+		switch t := last.(type) {
+		case *ssa.Return:
+			n++
+			if n > 32 {
+				return false
+			}
+			if v, ok := constBool(t.Results[0]); ok {
+				out[v] = append(out[v], append([]Fact(nil), facts...))
+				return true
+			}
+			// `return a == b`, `return x` (a phi of constants is resolved below by the caller of walk)
+			r := t.Results[0]
+			if phi, ok := r.(*ssa.Phi); ok && phi.Block() == b {
+				return false
+			}
+			for _, v := range []bool{true, false} {
+				out[v] = append(out[v], append(append([]Fact(nil), facts...), condFacts(r, v)...))
+			}
+			return true
+		case *ssa.If:
+			for si, succ := range b.Succs {
+				fs := append(append([]Fact(nil), facts...), condFacts(t.Cond, si == 0)...)
+				// a phi of constant booleans in the successor stands for `return <const>` through a merge block
+				if !walkThroughPhi(succ, b, fs, seen, &out, &n, walk) {
+					return false
+				}
+			}
+			return true
+		case *ssa.Jump:
+			return walkThroughPhi(b.Succs[0], b, facts, seen, &out, &n, walk)
+		}
+		return false
+	}
+	if !walk(fn.Blocks[0], nil, map[*ssa.BasicBlock]bool{}) {
+		return nil
+	}
+	return out
+}
+
+// walkThroughPhi continues into succ; when succ only returns a phi of boolean constants, the edge taken decides
+// the outcome.
+func walkThroughPhi(succ, from *ssa.BasicBlock, facts []Fact, seen map[*ssa.BasicBlock]bool, out *map[bool][][]Fact, n *int, walk func(*ssa.BasicBlock, []Fact, map[*ssa.BasicBlock]bool) bool) bool {
+	if ret, ok := succ.Instrs[len(succ.Instrs)-1].(*ssa.Return); ok && len(ret.Results) == 1 {
+		if phi, ok := ret.Results[0].(*ssa.Phi); ok && phi.Block() == succ {
+			for i, p := range succ.Preds {
+				if p == from && i < len(phi.Edges) {
+					*n++
+					if v, ok := constBool(phi.Edges[i]); ok {
+						(*out)[v] = append((*out)[v], append([]Fact(nil), facts...))
+						return true
+					}
+					for _, v := range []bool{true, false} {
+						(*out)[v] = append((*out)[v], append(append([]Fact(nil), facts...), condFacts(phi.Edges[i], v)...))
+					}
+					return true
+				}
+			}
+		}
+	}
+	return walk(succ, facts, seen)
 }
